@@ -347,7 +347,11 @@ func runMassive(m *Model, c massiveCase) []Diff {
 		d = append(d, Diff{What: "goroutines remain after a massive-mode call returned", Real: leak, Model: "none"})
 	}
 	if massive.lb != nil && massive.lb.lateWrites() > 0 {
-		noteKnown("c11.workers-outlive-error-return")
+		if massive.err == nil {
+			d = append(d, Diff{What: "massive mode returned nil but kept writing afterwards: the output was incomplete at return", Real: fmt.Sprint(massive.lb.lateWrites(), " late writes"), Model: "all output written before a nil return"})
+		} else {
+			noteKnown("c11.workers-outlive-error-return")
+		}
 	}
 	return d
 }
